@@ -63,24 +63,40 @@ Proof.
   destruct (N.eqb k k'); [reflexivity | exact IH].
 Qed.
 
-(* C05_reload_identity: after any history, a reload changes what no client can see *)
-Theorem reload_identity : forall h k,
-  seen (reload gob true (run h)) k = seen (run h) k.
+(* current code: a reload is the identity on every state *)
+Lemma reload_id : forall s, reload gob true s = s.
 Proof.
-  intros h k. unfold seen. rewrite lookup_reload.
-  destruct (lookup k (run h)) as [r|]; [|reflexivity]. cbn. rewrite persist_fixed. reflexivity.
-Qed.
-
-(* the stronger statement: the stored state itself is unchanged *)
-Theorem reload_state_identity : forall h, reload gob true (run h) = run h.
-Proof.
-  intros h. unfold reload. induction (run h) as [|[k r] t IH]; simpl; [reflexivity|].
+  intros s. unfold reload. induction s as [|[k r] t IH]; simpl; [reflexivity|].
   rewrite persist_fixed, IH. reflexivity.
 Qed.
 
+(* C05_reload_identity: after any history (with any number of closes in the middle), a reload
+   changes nothing a client can see *)
+Theorem reload_identity : forall h k,
+  seen (reload gob true (run gob true h)) k = seen (run gob true h) k.
+Proof. intros h k. rewrite reload_id. reflexivity. Qed.
+
+(* the stronger statement: the stored state itself is unchanged *)
+Theorem reload_state_identity : forall h, reload gob true (run gob true h) = run gob true h.
+Proof. intros h. apply reload_id. Qed.
+
+(* closes in the middle of a history are invisible: the state equals that of the same history
+   without them, wherever they are placed *)
+Definition is_reload (o : op) : bool := match o with OReload | OTick => true | _ => false end.
+Lemma run_from_drop_reloads : forall h s,
+  fold_left (step gob true) h s = fold_left (step gob true) (filter (fun o => negb (is_reload o)) h) s.
+Proof.
+  induction h as [|o t IH]; intros s; [reflexivity|].
+  destruct o; cbn [filter is_reload negb fold_left]; try apply IH.
+  cbn [step]. rewrite reload_id. apply IH.
+Qed.
+Theorem mid_history_reloads_invisible : forall h,
+  run gob true h = run gob true (filter (fun o => negb (is_reload o)) h).
+Proof. intros h. apply run_from_drop_reloads. Qed.
+
 (* pinned commit: refuted by Set k (Uint8 0) ... *)
 Theorem reload_identity_refuted_old :
-  exists h k, seen (reload gob false (run h)) k <> seen (run h) k.
+  exists h k, seen (reload gob false (run gob false h)) k <> seen (run gob false h) k.
 Proof.
   exists [OWrite 1%N {| r_val := VU8 0; r_created := 0; r_created_by := []; r_modified := 0; r_modified_by := []; r_expiry := 0 |}], 1%N.
   unfold seen. rewrite lookup_reload. cbn. unfold persist. cbn [r_val].
@@ -90,10 +106,10 @@ Qed.
 (* ... and true for every history that stores no zero-like value *)
 Definition no_zero_values (s : state) : Prop := forall k r, lookup k s = Some r -> is_gob_zero (r_val r) = false.
 Theorem reload_identity_partial_old : forall h,
-  no_zero_values (run h) -> forall k, seen (reload gob false (run h)) k = seen (run h) k.
+  no_zero_values (run gob false h) -> forall k, seen (reload gob false (run gob false h)) k = seen (run gob false h) k.
 Proof.
   intros h Hnz k. unfold seen. rewrite lookup_reload.
-  destruct (lookup k (run h)) as [r|] eqn:E; [|reflexivity]. cbn.
+  destruct (lookup k (run gob false h)) as [r|] eqn:E; [|reflexivity]. cbn.
   unfold persist. rewrite persist_value_old, (Hnz k r E). destruct r; reflexivity.
 Qed.
 
@@ -115,7 +131,7 @@ Qed.
 End Law.
 
 (* the law is satisfiable (by gob_spec itself), so none of the above is vacuous *)
-Example law_satisfiable : forall h k, seen (reload gob_spec true (run h)) k = seen (run h) k.
+Example law_satisfiable : forall h k, seen (reload gob_spec true (run gob_spec true h)) k = seen (run gob_spec true h) k.
 Proof. exact (reload_identity gob_spec (fun c => eq_refl)). Qed.
 
 (* all 15 content types x {zero-like, other}: which come back void (pinned commit) / intact (now) *)
@@ -136,7 +152,7 @@ Proof. vm_compute. repeat split. Qed.
 
 Example reload_nontrivial :
   let r v := {| r_val := v; r_created := 5; r_created_by := [97%N]; r_modified := 0; r_modified_by := []; r_expiry := -1 |} in
-  let h := [OWrite 1%N (r (VU8 0)); OWrite 2%N (r (VStr [])); OWrite 3%N (r (VI64 5)); ODelete 3%N; OWrite 2%N (r (VBool false))] in
-  map (fun k => option_map w_val (seen (reload gob_spec true (run h)) k)) [1%N; 2%N; 3%N] = [Some (VU8 0); Some (VBool false); None] /\
-  map (fun k => option_map w_val (seen (reload gob_spec false (run h)) k)) [1%N; 2%N; 3%N] = [Some VVoid; Some VVoid; None].
+  let h := [OWrite 1%N (r (VU8 0)); OWrite 2%N (r (VStr [])); OWrite 3%N (r (VI64 5)); OReload; OWrite 3%N (r (VI64 6)); ODelete 3%N; OWrite 2%N (r (VBool false))] in
+  map (fun k => option_map w_val (seen (reload gob_spec true (run gob_spec true h)) k)) [1%N; 2%N; 3%N] = [Some (VU8 0); Some (VBool false); None] /\
+  map (fun k => option_map w_val (seen (reload gob_spec false (run gob_spec false h)) k)) [1%N; 2%N; 3%N] = [Some VVoid; Some VVoid; None].
 Proof. vm_compute. split; reflexivity. Qed.
